@@ -32,4 +32,9 @@ CHECKS = {
         "note": "Trusted: z3, symx byte/CRC models (validated path-wise against the unshadowed import), refs/ashref.py. Bounds: symbolic payload <= 2 (quick) / 5 (thorough) bytes, accepted strings <= 5 / 7 bytes, corruption of frames <= 4 / 6 bytes; payloads 129..200 bytes as concrete pattern with two symbolic bytes.",
         "technique": SYMX,
     },
+    "C02": {
+        "text": "Shadow-compiled ash.py: every stream byte is an unconstrained 8-bit solver variable and the expected frame number a 3-bit one; the real data_received is fed chunk by chunk (one cut / all 2^(n-1) partitions) while the specification automaton gets the same symbolic bytes whole. On every feasible path (CRC-valid frames are constructed by the solver) the event traces - payloads handed up, reset codes, ACK/NAK kinds and numbers written - are proved equal, no exception leaves data_received, and the final expected number agrees. Longer streams through a structured family (reference-encoded DATA/RSTACK frames, corrupted frames, reserved bytes) and the memory bound as an inductive step over the buffer pre-state.",
+        "note": "Trusted: z3, symx byte/CRC models (validated path-wise against the unshadowed import), the reference decoder and its documented oracle decisions (dangling ESC before FLAG is don't-care). Bounds: free streams <= 5 bytes whole / 4 bytes all partitions (quick), 6 / 5 (thorough); structured 2-3 segments.",
+        "technique": SYMX,
+    },
 }
